@@ -295,11 +295,12 @@ func (s *jarSpec) judge(now time.Time, host, path string, got []retCookie, wire 
 		}
 		cls := "other" + ctx()
 		switch {
-		case w.host != w.hostname:
-			cls = "host-with-port"
 		case len(w.ck.Path) > 1 && len(path) > len(w.ck.Path):
+			// the reversed prefix test alone explains this one, whatever else is true of the cookie
 			out = append(out, jarFinding{"jar|path-prefix-reversed", fmt.Sprintf("cookie with path %q withheld for request path %q", w.ck.Path, path), retCookie{w.ck.Name, w.ck.Value, w.ck.Path}})
 			continue
+		case w.host != w.hostname:
+			cls = "host-with-port"
 		case s.respUpd[k]:
 			cls = "after-response-update-of-existing"
 		}
